@@ -57,7 +57,30 @@ def cube(rng, n):
     i, x, z = np.meshgrid(np.arange(n[0]), np.arange(n[1]), np.arange(n[2]), indexing='ij')
     base = np.sin(0.3 * i + 0.17 * x + 0.05 * z) * 1000.0 + 13.0 * i - 7.0 * x
     noise = rng.standard_normal(n) * 50.0
-    return (base + noise).astype(np.float32)
+    a = (base + noise).astype(np.float32)
+    # now and then, rare but valid sample values: constant cubes, zero and -0.0 regions, huge and tiny magnitudes,
+    # denormals, the largest finite floats
+    r = rng.random()
+    if r < 0.16:
+        k = int(r / 0.02)
+        sl = tuple(slice(int(rng.integers(0, m)), None) for m in n)
+        if k == 0:
+            a[...] = np.float32(rng.choice([0.0, 1.0, -7.25, 3.0e10]))
+        elif k == 1:
+            a[sl] = 0.0
+        elif k == 2:
+            a[sl] = -0.0
+        elif k == 3:
+            a *= np.float32(1e30)
+        elif k == 4:
+            a *= np.float32(1e-30)
+        elif k == 5:
+            a[sl] = (a[sl] * np.float32(1e-42)).astype(np.float32)          # denormals
+        elif k == 6:
+            a[sl] = np.where(rng.random(a[sl].shape) < .5, np.finfo(np.float32).max, -np.finfo(np.float32).max)
+        else:
+            a[0:1] = a[0, 0, 0]                                               # one constant inline
+    return a
 
 
 def linear_cube(n):
